@@ -1,6 +1,7 @@
 -- DRIVER-PROPS: C09
 /- history-mode handler for C09: perpetual pool aggregates vs positions, counter, custody backing. -/
 import ElysModel.Drv.Hist
+import ElysModel.Ids.Model
 import ElysModel.Ledger.Perp
 open Lean
 namespace Elys.Drv.PerpH
@@ -53,7 +54,11 @@ def handle (s : S) (i : Nat) (j : Json) : S × List Json :=
       (match aks.find? (fun k => m1.agg.get k != o.agg.get k) with
        | some k => [verdictDiff i "poolAggregate" (Json.mkObj [("key", kJson k), ("val", mkInt (m1.agg.get k))]) (Json.mkObj [("val", mkInt (o.agg.get k))])]
        | none => []) ++
-      (if m1.count != o.count then [verdictDiff i "openMtpCount" (mkInt m1.count) (mkInt o.count)] else [])
+      (if m1.count != o.count then [verdictDiff i "openMtpCount" (mkInt m1.count) (mkInt o.count)] else []) ++
+      -- the id model's invariant on the observed state: no stored position's id is above the counter (C09.ids_never_reused)
+      (if !Ids.boundedLastB st.obs.perpIdCount (st.obs.mtps.map (·.id)) then
+        [verdictDiff i "mtpIdCounter" (Json.mkObj [("invariant", "every stored id <= counter")])
+          (Json.mkObj [("counter", Json.num st.obs.perpIdCount), ("ids", Json.arr ((st.obs.mtps.map (fun p => Json.num p.id)).toArray))])] else [])
     let viols :=
       (match aks.find? (fun k => !aggEqSumB o k) with
        | some k => [verdictViol i "C09.aggregates_eq_sum" (Json.mkObj [("key", kJson k), ("poolRecord", mkInt (o.agg.get k)), ("sumOfPositions", mkInt (sumLive o k))])]
